@@ -94,7 +94,8 @@ def run(ck, ctx):
     ck.nd("equality of traces across processes (needs two runs - a different family)")
     ck.assume("trait-dispatched calls inside generic code are not followed: a production implementation can only be dispatched to if its type "
               "is named in reachable code, which R20.1 checks")
-    for cfg in ctx.configs:
+    # the BUGGIFY call sites of the harnesses only exist with `--features simulation`: analyse that configuration in the quick tier too
+    for cfg in (ctx.configs if "optall" in ctx.configs else list(ctx.configs) + ["optall"]):
         prog = ctx.prog(cfg)
         ck.configs.append(cfg)
         ck.fn_count += len(prog.fns)
